@@ -325,6 +325,106 @@ theorem checkThrottle_cell (c : HsCtrl) (now : Nat) (arg other : String) (batch 
           simp only [Lru.peek_store, hne, if_false]; exact hTo' hne
       · exact ⟨rfl, hT1, hTo'⟩
 
+/-! ## every history: no eviction and no cross-talk while the distinct values fit the capacity -/
+
+/-- a throttling check changes the time counter only by an `LruStep` -/
+theorem checkThrottle_step (c : HsCtrl) (now : Nat) (arg : String) (batch : Nat) (h : c.time.Room arg) :
+    LruStep c.time (c.checkThrottle now arg batch).1.time arg := by
+  have sT := LruStep.add c.time arg now h
+  unfold HsCtrl.checkThrottle
+  have hcap : ¬ c.time.cap = 0 := h.1
+  simp only [hcap, if_false]
+  split
+  · exact LruStep.same _ _
+  · cases hl : (c.time.addIfAbsent arg now).2 with
+    | none =>
+      have e : c.time.addIfAbsent arg now = ((c.time.addIfAbsent arg now).1, none) := by rw [← hl]
+      rw [e]; exact sT
+    | some lastT =>
+      have e : c.time.addIfAbsent arg now = ((c.time.addIfAbsent arg now).1, some lastT) := by rw [← hl]
+      rw [e]; simp only []
+      split
+      · split
+        · exact sT.store _ _
+        · exact sT.store _ _
+      · exact sT
+
+theorem checkThrottle_rule (c : HsCtrl) (now : Nat) (arg : String) (batch : Nat) : (c.checkThrottle now arg batch).1.rule = c.rule := by
+  unfold HsCtrl.checkThrottle
+  split
+  · rfl
+  · simp only []
+    split
+    · rfl
+    · generalize c.time.addIfAbsent arg now = p
+      obtain ⟨time', last⟩ := p
+      cases last <;> simp only [] <;> (repeat' split) <;> rfl
+
+/-- the time counter's invariant with respect to a universe `U` of parameter values that fits it -/
+structure TimeInv (c : HsCtrl) (U : List String) : Prop where
+  capT : c.time.cap ≠ 0
+  fitT : U.length ≤ c.time.cap
+  subT : ∀ x ∈ c.time.keys, x ∈ U
+  ndT : c.time.keys.Nodup
+
+theorem TimeInv.room {c : HsCtrl} {U : List String} (h : TimeInv c U) (arg : String) (ha : arg ∈ U) : c.time.Room arg :=
+  Lru.room_of_universe c.time U arg h.capT h.fitT h.ndT h.subT ha
+
+theorem checkThrottle_inv (c : HsCtrl) (U : List String) (now : Nat) (arg : String) (batch : Nat) (h : TimeInv c U) (ha : arg ∈ U) :
+    TimeInv (c.checkThrottle now arg batch).1 U := by
+  obtain ⟨t1, t2, t3⟩ := checkThrottle_step c now arg batch (h.room arg ha)
+  refine ⟨by rw [t3]; exact h.capT, by rw [t3]; exact h.fitT, ?_, t2 h.ndT⟩
+  intro x hx
+  rcases t1 x hx with rfl | hx'
+  · exact ha
+  · exact h.subT x hx'
+
+/-- run a sequence of throttling checks `(time, value, batch)` (oldest first), collecting the verdicts -/
+def HsCtrl.runThrottle (c : HsCtrl) : List (Nat × String × Nat) → HsCtrl × List HsRes
+  | [] => (c, [])
+  | (t, v, n) :: rest =>
+    let (c1, r) := c.checkThrottle t v n
+    let (c2, rs) := c1.runThrottle rest
+    (c2, r :: rs)
+
+/-- the same sequence seen by independent per-value schedules -/
+def schedulesRun (rule : HsRule) (cells : String → Option Nat) : List (Nat × String × Nat) → (String → Option Nat) × List HsRes
+  | [] => (cells, [])
+  | (t, v, n) :: rest =>
+    let (s', r) := hsThrottleStep (rule.thrFor v) rule.durSec rule.maxQueueMs (cells v) t n
+    let (cells2, rs) := schedulesRun rule (fun x => if x = v then s' else cells x) rest
+    (cells2, r :: rs)
+
+/-- **No cross-talk, every history (hotspot throttling)**: for every sequence of requests, of any length, over a set of distinct
+values no larger than the rule's capacity, the controller's verdicts - pass, wait with its amount, or block - are exactly those of
+independent per-value pacing schedules (`hs_throttle_wait/_pass/_blocked/_first` say what each of those does); nothing is evicted. -/
+theorem throttle_run_refines_schedules (c : HsCtrl) (U : List String) (reqs : List (Nat × String × Nat)) (h : TimeInv c U)
+    (hU : ∀ r ∈ reqs, r.2.1 ∈ U) :
+    (c.runThrottle reqs).2 = (schedulesRun c.rule c.time.peek reqs).2 ∧
+    TimeInv (c.runThrottle reqs).1 U ∧
+    (∀ v, (c.runThrottle reqs).1.time.peek v = (schedulesRun c.rule c.time.peek reqs).1 v) := by
+  induction reqs generalizing c with
+  | nil => exact ⟨rfl, h, fun _ => rfl⟩
+  | cons r rest ih =>
+    obtain ⟨t, v, n⟩ := r
+    have hv : v ∈ U := hU (t, v, n) (by simp)
+    have hroom := h.room v hv
+    have hinv := checkThrottle_inv c U t v n h hv
+    have hrule := checkThrottle_rule c t v n
+    have hcells : (c.checkThrottle t v n).1.time.peek =
+        (fun x => if x = v then (hsThrottleStep (c.rule.thrFor v) c.rule.durSec c.rule.maxQueueMs (c.time.peek v) t n).1 else c.time.peek x) := by
+      funext x
+      obtain ⟨_, c2, c3⟩ := checkThrottle_cell c t v x n hroom
+      by_cases hx : x = v
+      · subst hx; simp only [if_true]; exact c2
+      · simp only [hx, if_false]; exact c3 hx
+    obtain ⟨c1, _, _⟩ := checkThrottle_cell c t v v n hroom
+    obtain ⟨i1, i2, i3⟩ := ih (c.checkThrottle t v n).1 hinv (fun r hr => hU r (by simp [hr]))
+    rw [hrule, hcells] at i1 i3
+    simp only [HsCtrl.runThrottle, schedulesRun]
+    refine ⟨?_, i2, i3⟩
+    rw [i1, c1]
+
 /-! ## non-vacuity -/
 example : (throttleRun "t" (F64.ofNat 2) 1000000000 500000000 [(10, 1), (5, 1), (0, 1)]).2.length = 1 := by decide
 
